@@ -6,7 +6,8 @@
 From Coq Require Import String.
 From Aelys Require Import Extracted.ValueConsts Extracted.Opcodes Model.Value Model.VmArith Proofs.FoldVmProofs.
 From Aelys Require Import Base.Tactics Model.Lang Model.Eval Extracted.OptConsts Model.Opt.Fold
-  Model.PureEval Proofs.EvalProofs Proofs.FoldProofs Proofs.PureProofs Proofs.EvalMono Proofs.FoldEvalProofs.
+  Model.PureEval Proofs.EvalProofs Proofs.FoldProofs Proofs.PureProofs Proofs.EvalMono Proofs.FoldEvalProofs
+  Proofs.ValueMap Proofs.FoldSim Proofs.FoldSimExpr.
 Local Open Scope Z_scope.
 
 (* whenever the folder replaces `a op b` by a literal, that literal is exactly the value the
@@ -102,6 +103,44 @@ Example C01_fold_program_nonvacuous :
   forallb nofun_s p = true /\ fold_program p <> p
   /\ run_program 200 p = mkOutcome OcOk (sb [54; 10; 49; 53; 10]%nat) "42"
   /\ run_program 200 (fold_program p) = run_program 200 p.
+Proof. vm_compute. repeat split; try reflexivity. discriminate. Qed.
+
+(* FULL STATEMENT for the folder, every program of the modelled language -- closures, named and
+   recursive functions, higher-order calls, everything the evaluator covers: the folded program
+   has the same outcome (class, everything printed, printed final value) as the original, for
+   every fuel with which the original answers inside the modelled fragment (the run neither runs
+   out of fuel nor reaches a construct the evaluator does not model, class EUnsupported). *)
+Theorem C01_fold_program_preserves_all : forall (fuel : nat) (p : program),
+  oc_class (run_program fuel p) <> OcFuel ->
+  oc_class (run_program fuel p) <> OcErr EUnsupported ->
+  run_program fuel (fold_program p) = run_program fuel p.
+Proof. exact fold_program_preserves_all. Qed.
+
+(* the simulation behind it: from states related by "closures carry the folded body", the folded
+   syntax computes the related state and result, for all ten evaluator functions *)
+Theorem C01_fold_simulation_all : forall f : nat, fsim f.
+Proof. exact fsim_all. Qed.
+
+(* non-vacuity: a counter factory (closure capturing a mutable cell, created twice), a recursive
+   function and a higher-order call, with foldable arithmetic inside the function bodies *)
+Example C01_fold_program_all_nonvacuous :
+  let p := [SFun "make" [] [SLet "c" true (EBin BMul (EInt 2) (EInt 5));
+                            SRet (Some (ELam [] [SExpr (EAssign "c" (EBin BAdd (EVar "c") (EBin BSub (EInt 4) (EInt 3))));
+                                                 SRet (Some (EVar "c"))]))] [];
+            SFun "fact" [("n"%string, false)]
+              [SIf (EAnd (EBool true) (EBin BLe (EVar "n") (EBin BSub (EInt 1) (EInt 1))))
+                   (SBlock [SRet (Some (EInt 1))]) None;
+               SRet (Some (EBin BMul (EVar "n") (ECall (EVar "fact") [EBin BSub (EVar "n") (EInt 1)])))] [];
+            SFun "twice" [("g"%string, false); ("x"%string, false)] [SRet (Some (ECall (EVar "g") [ECall (EVar "g") [EVar "x"]]))] [];
+            SLet "a" false (ECall (EVar "make") []);
+            SLet "b" false (ECall (EVar "make") []);
+            SExpr (ECall (EVar "println") [EBin BAdd (ECall (EVar "a") []) (EBin BMul (ECall (EVar "a") []) (EInt 100))]);
+            SExpr (ECall (EVar "println") [ECall (EVar "b") []]);
+            SExpr (ECall (EVar "println") [ECall (EVar "twice") [ELam [("y"%string, false)] [SExpr (EBin BAdd (EVar "y") (EBin BMul (EInt 3) (EInt 3)))]; EInt 1]]);
+            SExpr (ECall (EVar "fact") [EInt 5])] in
+  forallb nofun_s p = false /\ fold_program p <> p
+  /\ run_program 400 p = mkOutcome OcOk (sb [49; 50; 49; 49; 10; 49; 49; 10; 49; 57; 10]%nat) "120"
+  /\ run_program 400 (fold_program p) = run_program 400 p.
 Proof. vm_compute. repeat split; try reflexivity. discriminate. Qed.
 
 (* constant propagation kernel: replacing variables by the literals they are bound to is
